@@ -400,8 +400,42 @@ pub fn extra_fault_texts() -> Vec<String> {
     v
 }
 
+/// Lists that grow: array dimensions, array literals, parameter / argument / qubit / index
+/// lists and case labels with 1..=n elements, and the same with the elements missing.
+pub fn growing_list_texts(n: usize) -> Vec<String> {
+    let mut v = Vec::new();
+    for k in 1..=n {
+        let ones = vec!["2"; k].join(", ");
+        let ids: Vec<String> = (0..k).map(|i| format!("p{}", i)).collect();
+        v.push(format!("array[int[8], {}] a;", ones));
+        v.push(format!("def f(readonly array[int[8], {}] a) {{ }}", ones));
+        v.push(format!("array[int[8], {}] a = {{{}}};", k, ones));
+        v.push(format!("array[int{}", ",".repeat(k)));
+        v.push(format!("array[int[8]{}] a;", ", ".repeat(k)));
+        v.push(format!("def f(mutable array[int{}", ",".repeat(k)));
+        v.push(format!("gate g({}) q {{ }}", ids.join(", ")));
+        v.push(format!("gate g {} {{ }}", ids.join(", ")));
+        v.push(format!("def f({}) {{ }}", ids.iter().map(|i| format!("int {}", i)).collect::<Vec<_>>().join(", ")));
+        v.push(format!("f({});", ones));
+        v.push(format!("g({}) q;", ones));
+        v.push(format!("h {};", ids.join(", ")));
+        v.push(format!("barrier {};", ids.join(", ")));
+        v.push(format!("x = m[{}];", ones));
+        v.push(format!("x = m{};", "[0]".repeat(k)));
+        v.push(format!("x = m[{{{}}}];", ones));
+        v.push(format!("switch (a) {{ case {} {{ }} }}", ones));
+        v.push(format!("for int i in {{{}}} {{ }}", ones));
+        v.push(format!("extern e({}) -> int;", vec!["int"; k].join(", ")));
+        v.push(format!("{} h r;", "inv @ ".repeat(k)));
+        v.push(format!("f({}", ",".repeat(k)));
+        v.push(format!("x = m[{}", ",".repeat(k)));
+    }
+    v
+}
+
 pub fn text_spaces(tier: Tier, oracle: fn(&str, &mut Ctx)) -> Vec<Box<dyn Space>> {
     let mut v: Vec<Box<dyn Space>> = Vec::new();
+    v.push(TextSpace::list("GROWING-LISTS (dimension, parameter, argument, operand, index, label and modifier lists of 1..=n elements)", growing_list_texts(if tier.is_thorough() { 300 } else { 70 }), 64, oracle));
     v.push(TextSpace::list("EXTRA-FAULTS (single-token faults of constructs outside the model grammar)", extra_fault_texts(), 256, oracle));
     v.push(TextSpace::list("JOINT-ALIGN (split composite operators at every token position modulo 64)", joint_alignment_texts(), 256, oracle));
     v.push(TextSpace::list("LITERAL-CONTEXT (strings and paths where their content is validated)", literal_context_texts(if tier.is_thorough() { 4 } else { 3 }), 512, oracle));
